@@ -288,6 +288,9 @@ class Builtin2Mixin:
         self.hstore(st, r, 'raised', none)
         self.hstore(st, r, 'awaited', none)
         self.hstore(st, r, 'result', none)
+        self.hstore(st, r, 'recv', none)
+        self.hstore(st, r, 'was_awaited', boolv(FALSE))
+        self.hstore(st, r, 'meth', none)
         st.ghost['OWN'] = z3.Store(st.ghost['OWN'], r_of(kd.term), TRUE)
         snap = self.config.get('user_call_snapshot')
         if snap:
@@ -353,11 +356,21 @@ class Builtin2Mixin:
         self.stats['user_calls'] += 1
         st = st.copy()
         hook = self.config.get('user_call_hook')
-        self.record_user_call(st, fv.term, args)
+        ev = self.record_user_call(st, fv.term, args)
+        if getattr(fv, 'origin', None) is not None:
+            # `receiver.name(...)` on an object of unknown class: the event also says which method of which object was called
+            self.hstore(st, r_of(ev.term), 'recv', fv.origin[0].term)
+            self.hstore(st, r_of(ev.term), 'meth', strv(S(fv.origin[1])))
         self.havoc_user(st)
         outs = []
         res = SV(smt.fresh('ures', Val), tag='user_result')
         st.assume(self.older(st, res.term))
+        if self.config.get('user_results_foreign'):
+            # A-FOREIGN (per unit): objects handed out by user code are instances of user-defined classes, not of plumpy's own
+            st.assume(z3.Implies(is_ref(res.term), z3.Select(st.CL, r_of(res.term)) >= I(self.index.first_free_id)))
+            res.tag = 'user_result'
+            self.assumptions_used.add('A-FOREIGN: objects returned by user code are instances of user-defined classes; their '
+                                      'attributes (properties included) are read from the heap')
         self.hstore(st, r_of(st.TR[z3.Length(st.TR) - 1]), 'result', res.term)
         if self.config.get('user_raises', True):
             s2 = st.copy()
@@ -408,6 +421,7 @@ class Builtin2Mixin:
             # the awaited outcome is recorded on the event of the user call that produced the awaitable
             evr = r_of(st.TR[z3.Length(st.TR) - 1])
             self.hstore(st, evr, 'awaited', res.term)
+            self.hstore(st, evr, 'was_awaited', boolv(TRUE))
         self.assume_class_invariants(st, res)
         if self.config.get('user_raises', True):
             s2 = st.copy()
